@@ -21,7 +21,7 @@ RULE = ("case = name / ARN string or (state machine name, execution name, region
         "back-stop sites; thorough: random names up to length 81 over the full alphabet. non-trivial = name with a non-alphanumeric accepted character, or a derivation site "
         "other than the record; distinct by the string / scenario")
 ASSUMPTIONS = ["'accepted' means accepted by the real CreateStateMachine/StartExecution handlers (HTTP 200)", "execution names are unique per world"]
-FLOORS = {"evaluations": 1500, "names_judged": 250, "accepted_names": 60, "rejected_names": 150, "arn_roundtrips": 1000, "engine_level_runs": 80, "derivation_sites_compared": 500,
+FLOORS = {"same_name_twin_machines": 30, "evaluations": 1500, "names_judged": 250, "accepted_names": 60, "rejected_names": 150, "arn_roundtrips": 1000, "engine_level_runs": 80, "derivation_sites_compared": 500,
           "nontrivial": 300, "site:restart-recreated-record": 10, "site:express": 10, "site:other-region": 10}
 SHARDS = {"quick": 16, "thorough": 16}
 TECHNIQUE = "round-trip contracts on arn.py + REST acceptance oracle + cross-surface identifier monitor over real executions (incl. restart recovery and back-stop)"
@@ -163,6 +163,24 @@ def engine_level(ctx, k):
         beh = __import__("lsfverif.gen.machines", fromlist=["worker_behaviour"]).worker_behaviour(dict(F.FUNCS))
         for fn in F.FUNCS:
             w.add_worker(fn, beh)
+        # a state machine of the same NAME in another account or region, exercised first through the same derivation sites: nothing derived
+        # from an execution ARN may be keyed by the name alone
+        twin = None
+        if k % 2 == 1:
+            t_region, t_account = (region, "999") if rng.random() < 0.5 else ("ap-south-1" if region == "local" else "local", ACCOUNT)
+            tsm = "arn:aws:states:%s:%s:stateMachine:%s" % (t_region, t_account, mname)
+            e.se.asl_store[tsm] = dict(e.se.asl_store[sm], stateMachineArn=tsm, roleArn="arn:aws:iam::%s:role/r" % t_account)
+            code, body = w.api("StartExecution", {"stateMachineArn": tsm, "name": ename, "input": json.dumps({"x": 0})})
+            if code != 200:
+                ctx.violation("well-formed-names-refused", dict(case, code=code, body=body), None)
+                return
+            twin = (tsm, body["executionArn"])
+            ctx.count("same_name_twin_machines")
+            case["twin"] = tsm
+            if site not in ("restart-recreated-record",):
+                w.run()
+                if site == "backstop":
+                    w.advance(w.execution_ttl + 130); w.run()
         code, body = w.api("StartExecution", {"stateMachineArn": sm, "name": ename, "input": json.dumps({"x": 1})})
         if code != 200:
             ctx.violation("well-formed-names-refused", dict(case, code=code, body=body), None)
@@ -182,9 +200,19 @@ def engine_level(ctx, k):
         if site == "backstop":
             w.advance(w.execution_ttl + 130); w.run()
         sites = {}
+        if twin:
+            # the twin's own surfaces must name the twin
+            for n in w.notifications:
+                d = n["body"]["detail"]
+                if d["executionArn"] == twin[1] and d["stateMachineArn"] != twin[0]:
+                    ctx.violation("identifier-derived-differently:notification.detail", dict(case, returned_by_StartExecution=[twin[0], ename, twin[1]],
+                                                                                             derived=[d["stateMachineArn"], d["name"], d["executionArn"]]), None)
+            trec = next(iter(w.engines.values())).se.executions.get(twin[1])
+            if trec and trec["stateMachineArn"] != twin[0]:
+                ctx.violation("identifier-derived-differently:record", dict(case, returned_by_StartExecution=[twin[0], ename, twin[1]], derived=dict(trec)), None)
         for n in w.notifications:
             d = n["body"]["detail"]
-            if d["executionArn"] != ex and d["name"] != ename:
+            if d["executionArn"] != ex and (twin or d["name"] != ename):
                 continue
             sites.setdefault("notification.detail", set()).add((d["stateMachineArn"], d["name"], d["executionArn"]))
             sites.setdefault("notification.subject", set()).add((n["subject"].rsplit(".", 1)[0], ename, ex))
